@@ -272,6 +272,25 @@ def func_tuple(ctx: Ctx, f, args: dict | None = None):
     return util.call_kwargs(v, "Func"), v
 
 
+def func_fields(ctx: Ctx, f):
+    """fields of the Func tuple for the helper's *default* order, with every helper expanded (so that a tuple built
+    from another helper's tuple, e.g. through _replace, is followed)."""
+    from sa import av
+
+    from . import util
+
+    dfl = {}
+    a = f.node.args
+    for arg, d in zip(a.args[len(a.args) - len(a.defaults):], a.defaults):
+        if isinstance(d, ast.Constant) and isinstance(d.value, (bool, str)):
+            dfl[arg.arg] = av.C(d.value)
+        elif isinstance(d, ast.Attribute) and isinstance(d.value, ast.Name) and d.value.id in ("RHSArgument", "SchemeArgument"):
+            dfl[arg.arg] = av.C(d.attr)
+    v = util.value_of(ctx, f, dfl, everything=True)
+    fields = util.call_kwargs(v, "Func")
+    return fields, v
+
+
 def argument_orders(ctx: Ctx, rule: str):
     from sa import av
 
@@ -318,6 +337,33 @@ def argument_orders(ctx: Ctx, rule: str):
                 if x is not None and x[0] == "call" and x[1].endswith("IndexedBase") and x[2] and x[2][0][0] == "c":
                     ib[nm] = x[2][0][1]
             ctx.check(ib.get("states") == "states" and ib.get("parameters") == "parameters" and ib.get("values") == "values", rule, f.key("indexed-bases"), "IndexedBase labels states/parameters/values", f"{f.qualname}: IndexedBase labels {ib} differ from the formal names states/parameters/values", f.where())
+    # every order, one by one: the helper is evaluated for each member of the enum (constant propagation through
+    # the helper, whatever way it builds the list) and the formals must name the letters' objects in that order
+    A_all = av.AV(sm, inline=lambda callee: True)
+    for short, cls in (("codegen/python.py", "PythonCodeGenerator"), ("codegen/c.py", "CCodeGenerator")):
+        for m, enum in (("_rhs_arguments", "RHSArgument"), ("_scheme_arguments", "SchemeArgument")):
+            f = sm.func(short, f"{cls}.{m}")
+            orders = sorted(common.enum_values(ctx, "codegen/base.py", enum).values())
+            wrong, unknown = [], []
+            for o in orders:
+                dfl = {a_.arg: av.C(d_.value) for a_, d_ in zip(f.node.args.args[len(f.node.args.args) - len(f.node.args.defaults):], f.node.args.defaults) if isinstance(d_, ast.Constant) and isinstance(d_.value, bool)}
+                v, _e = A_all.returned(f, {**dfl, f.params[1]: av.C(o)})
+                kw = util.call_kwargs(v, "Func")
+                args_v = kw.get("arguments") if kw else None
+                if args_v is None or args_v[0] != "list" or any(i[0] in ("spread", "when") or not av._is_str(i) for i in args_v[1]) or av.has_unk(args_v):
+                    unknown.append(o)
+                    continue
+                names = [av.flatten(i).replace(av.HO, " ").replace(av.HC, " ").split()[-1] for i in args_v[1]]
+                want = [expect[l] for l in o] + (["values"] if cls == "CCodeGenerator" else [])
+                if names != want:
+                    wrong.append((o, names))
+            key = f.key("every-order")
+            if wrong:
+                ctx.fail(rule, key, f"{f.qualname}: for order '{wrong[0][0]}' the formal arguments are {wrong[0][1]}, not {[expect[l] for l in wrong[0][0]]} ({len(wrong)} of {len(orders)} orders are wrong): the generated function takes its arguments in another order than requested", f.where())
+            elif unknown:
+                ctx.undecided(rule, key, f"{f.qualname}: the formal argument list is not understood for orders {unknown[:3]}...", f.where())
+            else:
+                ctx.ok(rule, key, f"all {len(orders)} orders give the formals of their letters, in order", f.where())
     # `order` reaches nothing but the argument helpers
     cgc = sm.cls("codegen/base.py", "CodeGenerator")
     for mname in ("rhs", "monitor_values", "missing_values", "scheme"):
@@ -399,6 +445,9 @@ def run(ctx: Ctx):
     unpack_pairs(ctx, "R04.a2")
     ctx.rule("R04.b", "index templates: python dict lookup (KeyError), C strcmp chain (-1); every *_index passes its own family name; init templates use their own index function and keep names/values aligned", floor=30)
     index_templates(ctx, "R04.b")
+    from .c03 import jax_template
+
+    jax_template(ctx, "R04.b")  # the jax functions return slot i of the body at position i
     ctx.rule("R04.c", "argument order: the enums are exactly the permutations; the order option reaches only the formal argument list; letters name the objects the body reads", floor=14)
     argument_orders(ctx, "R04.c")
     ctx.rule("R04.d", "declared counts and array extents belong to the size class of their family", floor=18)
